@@ -248,27 +248,26 @@ def bandlimited_rms(r, psd, wllow=None, wlhigh=None, flow=None, fhigh=None):
     work = psd.copy()
     work[r < flow] = 0
     work[r > fhigh] = 0
-    if r.ndim == 2:
-        c = tuple(s//2 for s in work.shape)
-        c2 = list(c)
-        c2[0] = c2[0] - 1
-        c2 = tuple(c2)
-        pt1 = r[c]
-        pt2 = r[c2]
-    else:
-        c = r.shape[0]//2
-        pt1 = r[c]
-        pt2 = r[c-1]
     # prysm doesn't enforce the user to be "top left" or "lower left" origin,
     # abs makes sure we do things right no matter what
-    dx = abs(pt2 - pt1)
+    if r.ndim == 2:
+        # the two frequency axes have different sample spacings when the data
+        # is not square: 1/(rows*dx) along axis 0, 1/(cols*dx) along axis 1
+        c = tuple(s//2 for s in work.shape)
+        pt1 = r[c]
+        dy = abs(r[c[0]-1, c[1]] - pt1)
+        dx = abs(r[c[0], c[1]-1] - pt1)
+    else:
+        c = r.shape[0]//2
+        dx = dy = abs(r[c-1] - r[c])
+
     # numpy 2 renamed trapz to trapezoid and later removed the old name,
     # numpy 1.x only has trapz
     trapezoid = getattr(np, 'trapezoid', None)
     if trapezoid is None:
         trapezoid = np.trapz
 
-    reduced = trapezoid(work, dx=dx, axis=0)
+    reduced = trapezoid(work, dx=dy, axis=0)
 
     if r.ndim == 2:
         reduced = trapezoid(reduced, dx=dx, axis=0)
